@@ -63,6 +63,20 @@ func init() {
 		if verr != nil || !okc {
 			return
 		}
+		{
+			// the same block, but the revision also moves the proof window into the
+			// future: the contract as it now stands cannot be proven yet
+			later := w.reviseV1From(sc.s, c, cur, nil, 1)
+			fcr := &later.FileContractRevisions[0].FileContract
+			k := uint64(w.tape.Range(5, 40))
+			fcr.WindowStart, fcr.WindowEnd = fcr.WindowStart+k, fcr.WindowEnd+k
+			later.Signatures = nil
+			w.signContractV1(sc.s, &later, c)
+			if spl, ok := w.storageProofV1(sc.s, sc.best, id, cur, data); ok {
+				verr, okc := sc.offer([]types.Transaction{later, {StorageProofs: []types.StorageProof{spl}}}, nil, offerOpt{rowVerdict: true})
+				w.expect(w.propAmong("C08", "C07"), "D5-v1-revise-window-later+prove", verr, okc, false, fmt.Sprintf("v1 contract %v (window start %d = this block) is revised to a window starting at %d, and the next transaction of the block proves it", id, ws, fcr.WindowStart))
+			}
+		}
 		verr, okc = sc.offer([]types.Transaction{rev, proof, proof2}, nil, offerOpt{})
 		w.expect(prop, "D5-v1-revise+prove+prove", verr, okc, false, what+", then proven a second time in the same block")
 		verr, okc = sc.offer([]types.Transaction{rev, proof, rev2}, nil, offerOpt{})
